@@ -192,6 +192,39 @@ func (exec *Executor) execBinaryMathExpr(
 	return exec.executeNextItem(ctx, node, next, val, found)
 }
 
+// executeInt64Math applies op to two integers. When the exact result does not
+// fit in an int64 the operation is carried out in float64 instead, so that the
+// result is never silently wrapped.
+func executeInt64Math(lhs, rhs int64, op ast.BinaryOperator) (any, error) {
+	if int64MathOverflows(lhs, rhs, op) {
+		return executeFloatMath(float64(lhs), float64(rhs), op)
+	}
+	return executeIntegerMath(lhs, rhs, op)
+}
+
+// int64MathOverflows reports whether the exact result of lhs op rhs is outside
+// the int64 range.
+func int64MathOverflows(lhs, rhs int64, op ast.BinaryOperator) bool {
+	switch op {
+	case ast.BinaryAdd:
+		return (rhs > 0 && lhs > math.MaxInt64-rhs) || (rhs < 0 && lhs < math.MinInt64-rhs)
+	case ast.BinarySub:
+		return (rhs < 0 && lhs > math.MaxInt64+rhs) || (rhs > 0 && lhs < math.MinInt64+rhs)
+	case ast.BinaryMul:
+		if lhs == 0 || rhs == 0 {
+			return false
+		}
+		if (lhs == -1 && rhs == math.MinInt64) || (rhs == -1 && lhs == math.MinInt64) {
+			return true
+		}
+		return lhs*rhs/rhs != lhs
+	case ast.BinaryDiv:
+		return lhs == math.MinInt64 && rhs == -1
+	default:
+		return false
+	}
+}
+
 // execMathOp casts left and right into numbers and, if it succeeds, applies
 // the binary math op to left and right. left and right must be an int64, a
 // float64, or a [json.Number]. In the latter case, execMathOp tries to cast
@@ -201,12 +234,12 @@ func execMathOp(left, right any, op ast.BinaryOperator) (any, error) {
 	case int64:
 		switch right := right.(type) {
 		case int64:
-			return executeIntegerMath(left, right, op)
+			return executeInt64Math(left, right, op)
 		case float64:
 			return executeFloatMath(float64(left), right, op)
 		case json.Number:
 			if right, err := right.Int64(); err == nil {
-				return executeIntegerMath(left, right, op)
+				return executeInt64Math(left, right, op)
 			}
 			if right, err := right.Float64(); err == nil {
 				return executeFloatMath(float64(left), right, op)
